@@ -101,14 +101,17 @@ def nodePrecedesRange (n inc : TSRange) : Bool :=
   else
     decide (n.end_byte ≤ inc.start_byte) || point_lte n.end_point inc.start_point
 
-/-- The expression the helper replaced (selected by the check when the source anchor
-`ts_query_cursor__node_precedes_range` is missing from query.c, i.e. the fix was reverted). -/
+/-- The expression the helper replaced (selected when the behavioural probe shows the old behaviour). -/
 def nodePrecedesRangeOld (n inc : TSRange) : Bool :=
   decide (n.end_byte ≤ inc.start_byte) || point_lte n.end_point inc.start_point
 
-/-- Port of the `node_outside_of_range` test in `ts_query_cursor_next_capture`. -/
-def captureOutside (n inc : TSRange) : Bool :=
-  nodePrecedesRange n inc ||
+/-- Port of the `node_outside_of_range` test in `ts_query_cursor_next_capture`.  `old` selects
+the test as it was before commit 5d2fccd; which one the code under test implements is decided on
+every run by a behavioural probe (captures() on a zero-width node at the range start), not by a
+source anchor: a rename of the helper changes nothing, a reverted fix selects the old variant —
+and is then reported by clause (a), because the unrestricted capture stream loses the node. -/
+def captureOutside (n inc : TSRange) (old : Bool := false) : Bool :=
+  (if old then nodePrecedesRangeOld n inc else nodePrecedesRange n inc) ||
   (decide (n.start_byte ≥ inc.end_byte) || point_gte n.start_point inc.end_point)
 
 def PLt (p q : TSPoint) : Prop := p.row < q.row ∨ (p.row = q.row ∧ p.column < q.column)
